@@ -505,6 +505,171 @@ func c16Verifier(c *Ctx) {
 	c.Check(len(bad) == 0, "verifier/name-only-to-manager", rule, w.InstrPos(get), fmt.Sprintf("other uses: %v", bad))
 }
 
+// c16ListComplete: the other half of "exactly the real sub-directories". (a) Every callback invocation for an entry that is a
+// real directory other than the root, without a walk error, records the entry: with the edges that contradict that
+// assumption removed, no return is reachable that does not pass an append of the entry's name. (b) fs.SkipDir is returned
+// only for an entry known to be a directory (for any other entry WalkDir skips the REST of the containing directory, so
+// later plugins would be dropped), and fs.SkipAll never.
+func c16ListComplete(c *Ctx, L *ssa.Function) {
+	w := c.W
+	ruleA := "listing is complete: for an entry that is a real directory other than the root (and no walk error) every way through the callback records the entry's name"
+	ruleB := "listing is complete: the callback answers fs.SkipDir only for an entry known to be a directory (for a file or symlink WalkDir would skip the remaining entries of the plugin root) and never fs.SkipAll"
+	isDirFact := func(l string) bool {
+		return strings.HasPrefix(l, "T(call:(io/fs.FileMode).IsDir(call:invoke:io/fs.DirEntry.Type(param:") || strings.HasPrefix(l, "T(call:invoke:io/fs.DirEntry.IsDir(param:")
+	}
+	// an edge that contradicts "real directory, not the root, no error"
+	contradicts := func(l string) bool {
+		switch {
+		case strings.HasPrefix(l, "EQ(param:") && strings.HasSuffix(l, `,const:".")`):
+			return true
+		case strings.HasPrefix(l, "F(call:(io/fs.FileMode).IsDir(call:invoke:io/fs.DirEntry.Type(param:"), strings.HasPrefix(l, "F(call:invoke:io/fs.DirEntry.IsDir(param:"):
+			return true
+		case strings.HasPrefix(l, "NE((call:invoke:io/fs.DirEntry.Type(param:") && strings.HasSuffix(l, "& const:134217728),const:0)"):
+			return true
+		case strings.HasPrefix(l, "NE(param:") && strings.HasSuffix(l, ",nil)"):
+			return true
+		}
+		return false
+	}
+	for _, cl := range closuresOf(L) {
+		fi := w.Info(cl)
+		var appendBlocks []*ssa.BasicBlock
+		for _, b := range cl.Blocks {
+			for _, in := range b.Instrs {
+				if st, ok := in.(*ssa.Store); ok {
+					if call, ok := st.Val.(*ssa.Call); ok {
+						if bi, ok := call.Call.Value.(*ssa.Builtin); ok && bi.Name() == "append" {
+							appendBlocks = append(appendBlocks, b)
+						}
+					}
+				}
+			}
+		}
+		if len(appendBlocks) == 0 {
+			continue
+		}
+		// (a)
+		cut := fi.edgesMatching(func(l string, iff *ssa.If, truth bool) bool {
+			if contradicts(l) {
+				return true
+			}
+			// the "no" answer of a predicate helper every "no" exit of which contradicts the assumption
+			for _, pre := range []string{"F(call:", "T(call:"} {
+				if !strings.HasPrefix(l, pre) {
+					continue
+				}
+				cond := iff.Cond
+				neg := false
+				for {
+					u, ok := cond.(*ssa.UnOp)
+					if !ok || u.Op != token.NOT {
+						break
+					}
+					neg = !neg
+					cond = u.X
+				}
+				call, ok := cond.(*ssa.Call)
+				if !ok {
+					continue
+				}
+				g := staticCallee(call)
+				if g == nil || g.Blocks == nil || !w.IsProductFn(g) {
+					continue
+				}
+				want := truth != neg // the helper's answer on this edge
+				sum := w.Summarize(g, Mode{Kind: mBool, Want: want})
+				if len(sum.Exits) == 0 {
+					continue
+				}
+				all := true
+				for _, ex := range sum.Exits {
+					one := false
+					for el := range ex.Checked {
+						if contradicts(substParams(el, paramNames(g), argDescs(call))) {
+							one = true
+						}
+					}
+					if !one {
+						all = false
+					}
+				}
+				if all {
+					return true
+				}
+			}
+			return false
+		})
+		for _, ab := range appendBlocks {
+			cutInto(fi, ab, cut)
+		}
+		reach := false
+		for _, b := range cl.Blocks {
+			if _, ok := blockTerm(b).(*ssa.Return); ok {
+				if b.Index == 0 || fi.reachHit(entryState(), cut, map[int]bool{b.Index: true}) {
+					reach = true
+				}
+			}
+		}
+		c.Evals++
+		c.Check(!reach, "list/complete", ruleA, w.FnPos(cl), "a real sub-directory can pass through the callback without being recorded")
+		// (b)
+		okSkip := true
+		detail := ""
+		for _, b := range cl.Blocks {
+			r, ok := blockTerm(b).(*ssa.Return)
+			if !ok || len(r.Results) != 1 {
+				continue
+			}
+			var vals []ssa.Value
+			if ph, ok := r.Results[0].(*ssa.Phi); ok {
+				vals = ph.Edges
+			} else {
+				vals = []ssa.Value{r.Results[0]}
+			}
+			for _, v := range vals {
+				d := desc(v)
+				switch {
+				case strings.HasSuffix(d, "io/fs.SkipAll") || strings.HasSuffix(d, "path/filepath.SkipAll"):
+					okSkip = false
+					detail = "fs.SkipAll is returned at " + w.InstrPos(r)
+				case strings.HasSuffix(d, "io/fs.SkipDir") || strings.HasSuffix(d, "path/filepath.SkipDir"):
+					g := fi.GuardsOf(r)
+					if _, isPhi := r.Results[0].(*ssa.Phi); isPhi {
+						g = nil // which edge delivered it is not decided here: demand the direct form
+					}
+					dir := false
+					for l := range g {
+						if isDirFact(l) {
+							dir = true
+						}
+					}
+					if !dir {
+						okSkip = false
+						detail = "fs.SkipDir is returned at " + w.InstrPos(r) + " for an entry not known to be a directory; guards: " + summarizeLabels(g, 6)
+					}
+				}
+			}
+		}
+		c.Check(okSkip, "list/skip-only-directories", ruleB, w.FnPos(cl), detail)
+	}
+}
+
+func paramNames(g *ssa.Function) []string {
+	var out []string
+	for _, p := range g.Params {
+		out = append(out, p.Name())
+	}
+	return out
+}
+
+func argDescs(call *ssa.Call) []string {
+	var out []string
+	for _, a := range call.Call.Args {
+		out = append(out, desc(a))
+	}
+	return out
+}
+
 // c16List: listing.
 func c16List(c *Ctx, mgrs map[string]bool) {
 	w := c.W
@@ -552,6 +717,7 @@ func c16List(c *Ctx, mgrs map[string]bool) {
 	if !found {
 		c.Bad("list/real-directories-only", rule, w.FnPos(L), "the walk callback does not append entry names")
 	}
+	c16ListComplete(c, L)
 	// the walk is over the plugin file system root
 	okWalk := false
 	for _, ci := range allCalls(L) {
